@@ -389,6 +389,19 @@ func (e *Engine) contentOf(st *state, v *Val) *Val {
 		}
 	}
 	switch v.Op {
+	case "choice":
+		changed := false
+		args := make([]*Val, len(v.Args))
+		for i, a := range v.Args {
+			args[i] = e.contentOf(st, a)
+			if args[i] != a {
+				changed = true
+			}
+		}
+		if changed {
+			return &Val{Op: "choice", Args: args, Type: v.Type, Aux: v.Aux}
+		}
+		return v
 	case "bufnext":
 		if len(v.Args) == 3 {
 			return v.Args[2]
@@ -758,6 +771,17 @@ func (e *Engine) execLoop(st *state, fr *frame, h, prev *ssa.BasicBlock, body ma
 		switch o.kind {
 		case oIterEnd:
 			arm := &Arm{Conds: o.st.conds[base:], Events: o.st.events, Next: map[string]*Val{}}
+			for k, me := range o.st.mem {
+				if me.Addr == nil || me.Addr.Op != "index" {
+					continue
+				}
+				if old, had := st.mem[k]; had && old.V == me.V {
+					continue
+				}
+				if r := addrRoot(me.Addr); r != nil && (r.Op == "alloc" || r.Op == "makeslice") {
+					arm.Local = append(arm.Local, &Event{Kind: EvStore, Dst: me.Addr, Src: me.V})
+				}
+			}
 			for _, pi := range phis {
 				for i, p := range h.Preds {
 					if p == o.exitFrom {
@@ -819,7 +843,7 @@ func (e *Engine) execLoop(st *state, fr *frame, h, prev *ssa.BasicBlock, body ma
 		// rotated loop: exits taken from the latch after a complete iteration are the normal end of the loop
 		var rest []*outcome
 		for _, o := range exits {
-			if o.exitTo == guard.exit && o.exitFrom != h && hasSucc(o.exitFrom, h) {
+			if o.exitTo == guard.exit && (o.exitFrom != h || hasSucc(h, h)) && hasSucc(o.exitFrom, h) {
 				latchExits = append(latchExits, o)
 			} else {
 				rest = append(rest, o)
@@ -1019,15 +1043,25 @@ func (e *Engine) tripCount(h *ssa.BasicBlock, ifr *frame, lc *loopCtx, iters []*
 		return unknown, ""
 	}
 	bo, ok := iff.Cond.(*ssa.BinOp)
-	if !ok || (bo.Op != token.LSS && bo.Op != token.GTR) || !lc.body[h.Succs[0]] || lc.body[h.Succs[1]] {
+	if !ok || (bo.Op != token.LSS && bo.Op != token.GTR && bo.Op != token.LEQ && bo.Op != token.GEQ) || !lc.body[h.Succs[0]] || lc.body[h.Succs[1]] {
 		return unknown, ""
 	}
 	c := e.val(ifr, bo)
-	if c.Op != "binop" || (c.Name != "<" && c.Name != ">") {
+	if c.Op != "binop" || (c.Name != "<" && c.Name != ">" && c.Name != "<=" && c.Name != ">=") {
 		return unknown, ""
 	}
-	down := c.Name == ">"
+	down := c.Name == ">" || c.Name == ">="
 	tested, bound := c.Args[0], c.Args[1]
+	// over the integers  v >= N  is  v > N-1  and  v <= N  is  v < N+1
+	switch c.Name {
+	case ">=":
+		bound = affToVal(affOf(bound).Add(affConst(1), -1))
+	case "<=":
+		bound = affToVal(affOf(bound).Add(affConst(1), 1))
+	}
+	if affOf(bound).Top {
+		return unknown, ""
+	}
 	if bound.Contains(func(v *Val) bool { return v.Op == "loopvar" && v.ID == lc.id || v.Op == "unknown" }) {
 		return unknown, ""
 	}
@@ -1135,13 +1169,66 @@ func fillLoop(iters []*Arm, count *Val, lid int) (*Val, *Val) {
 			return nil, nil
 		}
 	}
+	for _, ev := range iters[0].Local {
+		if store != nil {
+			return nil, nil
+		}
+		store = ev
+	}
 	if store == nil || store.Dst == nil || store.Dst.Op != "index" || len(store.Dst.Args) != 2 {
 		return nil, nil
 	}
 	S, idx := store.Dst.Args[0], store.Dst.Args[1]
 	isLV := func(x *Val) bool { return x.Op == "loopvar" && x.ID == lid }
-	if S.Contains(isLV) || store.Src == nil || store.Src.Contains(func(x *Val) bool { return isLV(x) || x.Op == "wire" || x.Op == "elem" }) {
+	if S.Contains(isLV) || store.Src == nil {
 		return nil, nil
+	}
+	bulk := false
+	var bulkW *Val
+	var bulkOrd string
+	if store.Src.Contains(func(x *Val) bool { return isLV(x) || x.Op == "wire" || x.Op == "elem" }) {
+		// s[i] = ByteOrder.UintN(W[k*i:]) (or W[k*i : k*i+k]) with k the size of the number and of s's elements: s is
+		// the sequence of numbers that W holds
+		src := stripCT(store.Src)
+		var outer types.Type
+		for src.Op == "conv" && len(src.Args) == 1 && isIntegerType(src.Type) {
+			if outer == nil {
+				outer = src.Type
+			}
+			src = stripCT(src.Args[0])
+		}
+		if src.Op != "call" || len(src.Args) != 1 {
+			return nil, nil
+		}
+		var k int64
+		for _, o := range []struct{ pfx, o string }{{"(encoding/binary.bigEndian).Uint", "BE"}, {"(encoding/binary.littleEndian).Uint", "LE"}} {
+			if strings.HasPrefix(src.Name, o.pfx) {
+				bulkOrd = o.o
+				k = map[string]int64{"16": 2, "32": 4, "64": 8}[strings.TrimPrefix(src.Name, o.pfx)]
+			}
+		}
+		sl := stripCT(src.Args[0])
+		if k == 0 || sl.Op != "slice" || sl.Args[1] == nil || sl.Args[0].Contains(isLV) {
+			return nil, nil
+		}
+		if st, isSl := S.Type.Underlying().(*types.Slice); !isSl {
+			return nil, nil
+		} else if esz, ok := fixedSize(st.Elem()); !ok || esz != k || !isIntegerType(st.Elem()) {
+			return nil, nil
+		}
+		if outer != nil {
+			if osz, ok := fixedSize(outer); !ok || osz != k {
+				return nil, nil
+			}
+		}
+		lo := affOf(sl.Args[1])
+		if lo.Top || !lo.Equal(affOf(idx).Scale(k)) {
+			return nil, nil
+		}
+		if sl.Args[2] != nil && !affOf(sl.Args[2]).Equal(lo.Add(affConst(k), 1)) {
+			return nil, nil
+		}
+		bulk, bulkW = true, stripCT(sl.Args[0])
 	}
 	if _, isSlice := S.Type.Underlying().(*types.Slice); S.Type == nil || !isSlice {
 		return nil, nil
@@ -1174,8 +1261,43 @@ func fillLoop(iters []*Arm, count *Val, lid int) (*Val, *Val) {
 	if !affOf(count).Equal(affOf(mkLen(S))) {
 		return nil, nil
 	}
+	if bulk {
+		return S, &Val{Op: "bulkints", Name: bulkOrd, Args: []*Val{bulkW, count}, Type: S.Type}
+	}
 	c := &Val{Op: "call", Name: "bytes.Repeat", Args: []*Val{{Op: "arraylit", Args: []*Val{store.Src}}, count}, Type: S.Type}
 	return S, c
+}
+
+// hasEffects: the iteration does something besides possible panic sites.
+func (a *Arm) hasEffects() bool {
+	for _, e := range a.Events {
+		if e.Kind != EvPanicSite {
+			return true
+		}
+	}
+	return false
+}
+
+// appendedInt: n is ByteOrder.AppendUintN(_, x); returns the staged number intbytes(x).
+func appendedInt(n *Val) *Val {
+	for _, ord := range []struct{ pfx, o string }{{"(encoding/binary.bigEndian).AppendUint", "BE"}, {"(encoding/binary.littleEndian).AppendUint", "LE"}} {
+		if !strings.HasPrefix(n.Name, ord.pfx) {
+			continue
+		}
+		var it types.Type
+		switch strings.TrimPrefix(n.Name, ord.pfx) {
+		case "16":
+			it = types.Typ[types.Uint16]
+		case "32":
+			it = types.Typ[types.Uint32]
+		case "64":
+			it = types.Typ[types.Uint64]
+		default:
+			return nil
+		}
+		return &Val{Op: "intbytes", Name: ord.o, Args: []*Val{n.Args[1]}, Type: it}
+	}
+	return nil
 }
 
 // narrows: next is lv[k:] or lv[:len(lv)-k] with a constant k >= 1.
@@ -1235,6 +1357,14 @@ func (e *Engine) loopOutVal(phi *ssa.Phi, init, lv *Val, iters []*Arm, count *Va
 		}
 		if ok && elem != nil {
 			return &Val{Op: "collect", ID: lid, Args: []*Val{init, elem, count}, Type: phi.Type()}
+		}
+		// staged output: next = ByteOrder.AppendUintN(lv, x) on every iteration
+		if len(iters) == 1 {
+			if n := iters[0].Next[lv.Name]; n != nil && n.Op == "call" && len(n.Args) == 2 && n.Args[0].Key() == lv.Key() {
+				if ib := appendedInt(n); ib != nil && count != nil && !iters[0].hasEffects() {
+					return &Val{Op: "stagedrep", ID: lid, Args: []*Val{init, ib, count}, Type: phi.Type()}
+				}
+			}
 		}
 	}
 	out := &Val{Op: "loopout", ID: lid, Name: lv.Name, Args: []*Val{init}, Type: phi.Type(), Aux: lv.Aux}
@@ -1618,9 +1748,7 @@ func rotatedGuard(b *ssa.BasicBlock, in *ssa.If, c *Val) *rotGuard {
 		return nil
 	}
 	for blk := range body {
-		if blk == h {
-			continue
-		}
+		// (a loop whose body is one block is its own latch)
 		if iff, ok := blk.Instrs[len(blk.Instrs)-1].(*ssa.If); ok && len(blk.Succs) == 2 && blk.Succs[0] == h && blk.Succs[1] == exit {
 			if bo, ok := iff.Cond.(*ssa.BinOp); ok && bo.Op == token.LSS {
 				return &rotGuard{exit: exit, cond: c}
